@@ -15,6 +15,9 @@ var hostileValues = []string{
 	`""`, `"str"`, `[]`, `[null]`, `[1,"a",null,{}]`, `{}`, `{"a":null}`, `{"a":{"b":{"c":[{"d":null}]}}}`,
 	`[{"name":"a"},null]`, `[{"name":"web","port":80},null,{"name":"adm","port":8080}]`, `[null,{"port":80}]`, `[{"name":null}]`, `[{"name":{"x":1}},{"name":["y"]}]`,
 	`[[[]]]`, `{"":""}`, `"\u0000"`, `[{"type":"Updated"}]`, `[{"type":1}]`, `{"type":"Updated","status":"True"}`,
+	// right JSON types, unusable values: selectors that cannot be converted, names and versions that cannot exist
+	`[{"key":"rel","operator":"Within","values":["a"]}]`, `[{"key":"rel","operator":"In","values":[]}]`, `[{"key":"bad key!","operator":"Exists"}]`,
+	`{"bad key!":"x"}`, `{"k":"bad value!"}`, `"Bad_Name!"`, `"a/b/c"`, `["Bad_Name!",""]`,
 }
 
 // rawBodies: responses that are not even the right shape.
@@ -37,6 +40,33 @@ func mutationPaths(kind string) []string {
 		ps = append(ps, "labels", "annotations", "labels.decorated", "annotations.x")
 	}
 	return ps
+}
+
+// targetedValues: type-correct but unusable values for one response field.
+func targetedValues(path string) []string {
+	switch {
+	case strings.HasSuffix(path, ".matchExpressions"):
+		return []string{`[{"key":"rel","operator":"Within","values":["a"]}]`, `[{"key":"rel","operator":"In","values":[]}]`, `[{"key":"bad key!","operator":"Exists"}]`, `[{"key":"rel","operator":"Exists","values":["x"]}]`, `[{"key":"","operator":"In","values":["x"]}]`}
+	case strings.HasSuffix(path, ".labelSelector"):
+		return []string{`{"matchExpressions":[{"key":"rel","operator":"Within","values":["a"]}]}`, `{"matchExpressions":[{"key":"rel","operator":"NotIn","values":[]}]}`, `{"matchLabels":{"bad key!":"x"}}`, `{"matchLabels":{"k":"bad value!"}}`}
+	case strings.HasSuffix(path, ".matchLabels"), strings.HasSuffix(path, ".labels"), strings.HasSuffix(path, ".annotations"), path == "labels", path == "annotations":
+		return []string{`{"bad key!":"x"}`, `{"k":"bad value!"}`, `{"":"x"}`, `{"a/b/c":"x"}`}
+	case strings.HasSuffix(path, ".names"):
+		return []string{`["Bad_Name!"]`, `[""]`, `["a","a"]`}
+	case strings.HasSuffix(path, ".name"), strings.HasSuffix(path, ".namespace"):
+		return []string{`"Bad_Name!"`, `""`, `"a/b"`, `"` + strings.Repeat("x", 300) + `"`}
+	case strings.HasSuffix(path, ".apiVersion"):
+		return []string{`"a/b/c"`, `""`, `"/v1"`, `"nosuch.io/v9"`}
+	case strings.HasSuffix(path, ".resource"), strings.HasSuffix(path, ".kind"):
+		return []string{`"nosuch"`, `""`, `"Widget/status"`}
+	case strings.HasSuffix(path, ".ownerReferences"):
+		return []string{`[{"apiVersion":"v1","kind":"ConfigMap","name":"x","uid":"u","controller":true}]`, `[{}]`, `[{"uid":""}]`}
+	case strings.HasSuffix(path, ".finalizers"):
+		return []string{`["example.com/hold"]`, `[""]`}
+	case path == "resyncAfterSeconds":
+		return []string{`-5`, `0.0001`, `1e12`}
+	}
+	return nil
 }
 
 func setRaw(doc any, path []string, raw string, del bool) (any, bool) {
@@ -176,6 +206,11 @@ func PropC13(c *vs.Case, f Factory, kind string) error {
 		}
 		p := paths[c.Int(len(paths))]
 		v := hostileValues[c.Int(len(hostileValues))]
+		if tv := targetedValues(p); len(tv) > 0 && c.Bool() {
+			// values of the right JSON type for this very field that still cannot be used
+			v = tv[c.Int(len(tv))]
+			c.Class("targeted-value")
+		}
 		var doc any
 		_ = json.Unmarshal(bb, &doc)
 		nd, ok := setRaw(doc, strings.Split(p, "."), v, false)
